@@ -4,9 +4,13 @@ import (
 	"context"
 	"crypto/tls"
 	"fmt"
+	"io"
+	"net"
 	"os"
+	"time"
 
 	"github.com/ansible/receptor/internal/verifapi"
+	"github.com/ansible/receptor/pkg/controlsvc"
 	"github.com/ansible/receptor/pkg/logger"
 	"github.com/ansible/receptor/pkg/netceptor"
 )
@@ -58,3 +62,75 @@ func verifWorkceptor(dir string) *verifWork {
 }
 
 func osMkdirAll(p string) error { return os.MkdirAll(p, 0o700) }
+
+// ---- control-service side stubs ----
+
+type verifAddr struct{ network string }
+
+func (a verifAddr) Network() string { return a.network }
+func (a verifAddr) String() string  { return "peer" }
+
+// verifCFO is the ControlFuncOperations a work command sees: the connection kind, the stdin the
+// submitter sends, and a record of everything the command did with the connection.
+type verifCFO struct {
+	network  string
+	stdin    []byte
+	messages *[]string
+	streamed *[]byte
+	closed   *int
+}
+
+func verifNewCFO(network string) *verifCFO {
+	return &verifCFO{network: network, messages: &[]string{}, streamed: &[]byte{}, closed: new(int)}
+}
+
+func (c *verifCFO) BridgeConn(message string, bc io.ReadWriteCloser, bcName string, lg *logger.ReceptorLogger, u controlsvc.Utiler) error {
+	return nil
+}
+
+func (c *verifCFO) ReadFromConn(message string, out io.Writer, _ controlsvc.Copier) error {
+	*c.messages = append(*c.messages, message)
+	_, err := out.Write(c.stdin)
+	return err
+}
+
+func (c *verifCFO) WriteToConn(message string, in chan []byte) error {
+	*c.messages = append(*c.messages, message)
+	for b := range in {
+		*c.streamed = append(*c.streamed, b...)
+	}
+	return nil
+}
+
+func (c *verifCFO) Close() error         { *c.closed++; return nil }
+func (c *verifCFO) RemoteAddr() net.Addr { return verifAddr{c.network} }
+
+// verifNCC is the node a control command sees.
+type verifNCC struct{ verifNC }
+
+func (n *verifNCC) Dial(node string, service string, tlscfg *tls.Config) (*netceptor.Conn, error) {
+	return nil, fmt.Errorf("no route to node")
+}
+
+func (n *verifNCC) Ping(ctx context.Context, target string, hopsToLive byte) (time.Duration, string, error) {
+	return 0, "", fmt.Errorf("no route to node")
+}
+func (n *verifNCC) MaxForwardingHops() byte  { return 5 }
+func (n *verifNCC) Status() netceptor.Status { return netceptor.Status{NodeID: n.id} }
+func (n *verifNCC) Traceroute(ctx context.Context, target string) <-chan *netceptor.TracerouteResult {
+	return nil
+}
+func (n *verifNCC) CancelBackends() {}
+
+func (wk *verifWork) ncc() *verifNCC { return &verifNCC{*wk.nc} }
+
+// verifCommand runs one "work" control command given as a JSON-style map through the real
+// InitFromJSON + ControlFunc.
+func (wk *verifWork) verifCommand(cfo *verifCFO, cfg map[string]interface{}) (map[string]interface{}, error) {
+	t := &workceptorCommandType{w: wk.w}
+	cmd, err := t.InitFromJSON(cfg)
+	if err != nil {
+		return nil, err
+	}
+	return cmd.ControlFunc(context.Background(), wk.ncc(), cfo)
+}
